@@ -165,6 +165,30 @@ StepSky ==
               flags |-> [r \in 1..c.nr |-> [p \in 1..c.L |-> ClassBits(c.tbl, cl[r][p])]]]
   /\ exp' = [val |-> SkyMask(c'.ivar, c'.flags, c'.ngrow, c'.tbl)]
 
+(* mask VALUES with the top bit of their own integer type set (negative values of the signed types): top = 7, 15, 31,  *)
+(* 63 is the sign bit of int8 / int16 / int32 / int64 (and an ordinary high bit of every wider type).  A value is its    *)
+(* set of bits; "ones" is the value -1 of the type (all bits 0..top, the two flags included when the type holds them).   *)
+SkyTops == {7, 15, 31, 63}
+SkyTopClasses == {"none", "top", "topo", "topf", "ones"}
+TopBits(t, top, cl) ==
+  CASE cl = "none" -> {}
+    [] cl = "top" -> {top}
+    [] cl = "topo" -> {top, IF t.O1 < top THEN t.O1 ELSE 0}
+    [] cl = "topf" -> {top, IF t.BADSKYCHI < top THEN t.BADSKYCHI ELSE 1}
+    [] cl = "ones" -> 0..top
+SkyTopL == IF Q THEN 3 ELSE 4
+RootSkyTop == \E t \in SkyTables : \E top \in SkyTops : \E g \in (IF Q THEN {0, 1} ELSE 0..3) :
+                 c' = [kind |-> "seedtop", tbl |-> t, top |-> top, ngrow |-> g]
+StepSkyTop ==
+  /\ c.kind = "seedtop"
+  /\ \E cl \in [1..SkyTopL -> SkyTopClasses] :
+        c' = [kind |-> "sky", pat |-> "top", tbl |-> c.tbl, ngrow |-> c.ngrow, ivar |-> SkyIvar(1, SkyTopL),
+              flags |-> <<[p \in 1..SkyTopL |-> TopBits(c.tbl, c.top, cl[p])]>>]
+  /\ exp' = [val |-> SkyMask(c'.ivar, c'.flags, c'.ngrow, c'.tbl)]
+(* a value whose only set bits are the top bit and bits other than the two flags zeroes nothing *)
+SkyTopBitAloneHarmless ==
+  (c.kind = "sky" /\ c.pat = "top" /\ \A p \in Idx(c.flags[1]) : c.flags[1][p] \cap SkyBits(c.tbl) = {}) => exp.val = c.ivar
+
 (* wide dilations: every ngrow up to SkyWideMax on rows long enough to hold the whole window,  *)
 (* with isolated flagged pixels (no second flagged pixel inside the same 2*ngrow+1 window).   *)
 SkyWideMax == IF Q THEN 60 ELSE 130
@@ -207,9 +231,10 @@ RootStep ==
      \/ "median2" \in Families /\ RootMedian2
      \/ "sky" \in Families /\ RootSky
      \/ "skywide" \in Families /\ RootSkyWide
+     \/ "skytop" \in Families /\ RootSkyTop
   /\ exp' = NoExp
 Next == RootStep \/ StepReject \/ StepRejnum \/ StepInterp1 \/ StepInterpND \/ StepAesth
-        \/ StepMedian \/ StepMedian2 \/ StepSky \/ StepSkyWide
+        \/ StepMedian \/ StepMedian2 \/ StepSky \/ StepSkyWide \/ StepSkyTop
 
 IsRej == c.kind \in {"reject", "rejnum"}
 IsI1 == c.kind = "interp1"
@@ -268,5 +293,6 @@ C17_SkyWidth == IsSky => SkyWidth(c.ivar, c.flags, c.ngrow, c.tbl)
 C17_SkyOtherBits == IsSky => SkyOtherBitsIrrelevant(c.ivar, c.flags, c.ngrow, c.tbl)
 C17_SkyRowsIndependent == IsSky => SkyRowsIndependent(c.ivar, c.flags, c.ngrow, c.tbl)
 C17_SkyWideIsolated == SkyWideShape
+C17_SkyTopBitAloneHarmless == SkyTopBitAloneHarmless
 C17_SkyOnlyZeroes == IsSky => SkyOnlyZeroes(c.ivar, c.flags, c.ngrow, c.tbl)
 =============================================================================
